@@ -74,6 +74,13 @@ func NewResponseFilterWriter(filters []ResponseFilter, gz *gzipResponseWriter) *
 // WriteHeader wraps underlying WriteHeader method and
 // compresses if filters are satisfied.
 func (r *ResponseFilterWriter) WriteHeader(code int) {
+	if r.statusCodeWritten {
+		// The header is out and the decision has been made with it; a
+		// further call must not make another one (the body would change
+		// its coding half-way). Let the server report the surplus call.
+		r.gzipResponseWriter.ResponseWriterWrapper.WriteHeader(code)
+		return
+	}
 	// Determine if compression should be used or not.
 	r.shouldCompress = true
 	for _, filter := range r.filters {
@@ -95,6 +102,20 @@ func (r *ResponseFilterWriter) WriteHeader(code int) {
 		r.ResponseWriter.WriteHeader(code)
 	}
 	r.statusCodeWritten = true
+}
+
+// Flush decides about compression first if a handler flushes before it has
+// written anything (as WriteHeader would), then flushes the way the decision
+// requires.
+func (r *ResponseFilterWriter) Flush() {
+	if !r.statusCodeWritten {
+		r.WriteHeader(http.StatusOK)
+	}
+	if r.shouldCompress {
+		r.gzipResponseWriter.Flush()
+		return
+	}
+	r.gzipResponseWriter.ResponseWriterWrapper.Flush()
 }
 
 // Write wraps underlying Write method and compresses if filters
